@@ -47,17 +47,20 @@ fn inputs() -> Vec<Input> {
         Input::File(s("truncated-comment"), b"<a><!-- </a>".to_vec()),
         Input::File(s("non-utf8"), b"<a>\xff\xfe</a>".to_vec()),
         Input::File(s("non-utf8-name"), b"<a><\xff/></a>".to_vec()),
+        Input::File(s("non-utf8-attribute-value"), b"<a title=\"Stra\xdfe\"><b/></a>".to_vec()),
+        Input::File(s("non-utf8-comment"), b"<a><!-- \xe9 --><b/></a>".to_vec()),
         Input::Missing,
         Input::Directory,
     ]
 }
 
 const PARSERS: &[Option<&str>] = &[None, Some("quick-xml-de"), Some("serde-xml-rs")];
-const DERIVES: &[Option<&str>] = &[None, Some("Debug"), Some(""), Some("Clone, Debug")];
+const DERIVES: &[Option<&str>] = &[None, Some("Debug"), Some(""), Some("Clone, Debug"), Some("Debug,Clone"), Some(" Debug , Clone,")];
 const SORTS: &[Option<&str>] = &[None, Some("unsorted"), Some("name")];
 const OUTPUTS: &[&str] = &["stdout", "new-file", "existing-file", "missing-directory", "is-directory"];
 const HEADER: &str = "use serde::{Deserialize, Serialize};\n\n";
-const OLD_CONTENT: &[u8] = b"// previous content\n";
+/// longer than any rendering of the inputs, so that a missing truncation shows
+const OLD_CONTENT: &[u8] = &[b'/'; 6000];
 
 fn name_of(i: &Input) -> String {
     match i {
